@@ -2,6 +2,7 @@ package main
 
 import (
 	"log"
+	"os"
 
 	"github.com/go-critic/go-critic/checkers"
 
@@ -44,6 +45,12 @@ func run(cfg config) {
 			Description: "get installed checkers documentation",
 			ExecFunc:    runDocs,
 		},
+	}
+
+	// The runner compares the word with every command's name and (empty) alias:
+	// an empty word would select the first command.
+	if len(os.Args) > 1 && os.Args[1] == "" {
+		log.Fatal(`no such command ""`)
 	}
 
 	r := acmd.RunnerOf(cmds, acmd.Config{
